@@ -52,6 +52,21 @@ const (
 	// The table of maxima of the current run is in Notes["alloc_max"].
 	allocBoundA = 128 << 20
 	allocBoundB = 64
+
+	// The read bound: a call may read at most readBoundA + readBoundB*len(layer)
+	// bytes of the layer blob (counted at the io.ReaderAt handed to Layer.Init).
+	// Observed maxima (Notes["read_max"]: bytes read / (len+4096)) are at most 2
+	// for every single call: Layer.Init reads the archive once, a scanner its
+	// files once or twice. The concurrent calls read the sum of all scanners on
+	// two layers and are not held to the bound.
+	readBoundA = 4 << 20
+	readBoundB = 8
+	// No single 512-byte block of the layer is read more than this many times
+	// in one call (observed maxima in Notes["read_max"]): a file that is opened
+	// again for every candidate (an rpm database by a language scanner whose
+	// cached file list is dropped between lookups) has its first block read once
+	// per opening.
+	blockReadBound = 24
 )
 
 func hangTimeout(cfg hx.Config, size int) time.Duration {
@@ -139,8 +154,8 @@ type worker struct {
 }
 
 type pool struct {
-	exe     string
-	race    bool // exe is built with the race detector
+	exe  string
+	race bool // exe is built with the race detector
 	// noWarm: a worker died of a fatal error while warming up; workers are
 	// started without the warm-up and the warm-up layer is evaluated as the
 	// first job, so that the death is charged to a call. startErr is what the
@@ -148,12 +163,12 @@ type pool struct {
 	noWarm   bool
 	startErr error
 	dir      string
-	names   []string
-	skipped []string
-	mu      sync.Mutex
-	live    map[*worker]struct{}
-	spawnMu sync.Mutex
-	err     error
+	names    []string
+	skipped  []string
+	mu       sync.Mutex
+	live     map[*worker]struct{}
+	spawnMu  sync.Mutex
+	err      error
 }
 
 func newPool() (*pool, error) {
@@ -196,7 +211,10 @@ func newPoolOf(exe string, race bool) (*pool, error) {
 
 func (p *pool) spawn() (*worker, error) {
 	cmd := exec.Command(p.exe)
-	cmd.Env = append(os.Environ(), envWorker+"=1", envWorkerDir+"="+p.dir, "TMPDIR="+p.dir, "GOMAXPROCS=1", "GOTRACEBACK=single")
+	// Two processors: a goroutine that a scanner wakes (the reference counting
+	// of the rpm files cache hangs on such goroutines) then runs at once, as it
+	// does in the indexer, and not only when the scanner is next preempted.
+	cmd.Env = append(os.Environ(), envWorker+"=1", envWorkerDir+"="+p.dir, "TMPDIR="+p.dir, "GOMAXPROCS=2", "GOTRACEBACK=single")
 	if p.noWarm {
 		cmd.Env = append(cmd.Env, envWorkerNoWarm+"=1")
 	}
@@ -307,7 +325,11 @@ type callRes struct {
 	alloc  uint64
 	leaked int
 	stuck  int
-	msg    string
+	read   uint64 // bytes the call read from the layer blob
+	// maxBlock: the largest number of reads of one 512-byte block, and the block
+	maxBlock   int
+	whichBlock int64
+	msg        string
 }
 
 type layerRes struct {
@@ -344,12 +366,18 @@ func (p *pool) run(w *worker, idx []int, blob []byte, timeout time.Duration, res
 			case 'S':
 				cur, _ = strconv.Atoi(string(f.p))
 			case 'R':
-				fs := strings.SplitN(string(f.p), " ", 6)
-				if len(fs) != 6 {
+				fs := strings.SplitN(string(f.p), " ", 7)
+				if len(fs) != 7 {
 					continue
 				}
 				i, _ := strconv.Atoi(fs[0])
-				c := callRes{status: fs[1], msg: fs[5]}
+				c := callRes{status: fs[1], msg: fs[6]}
+				if rf := strings.Split(fs[5], "/"); len(rf) == 3 {
+					c.read, _ = strconv.ParseUint(rf[0], 10, 64)
+					mb, _ := strconv.ParseUint(rf[1], 10, 32)
+					c.maxBlock = int(mb)
+					c.whichBlock, _ = strconv.ParseInt(rf[2], 10, 64)
+				}
 				c.items, _ = strconv.Atoi(fs[2])
 				c.alloc, _ = strconv.ParseUint(fs[3], 10, 64)
 				if l, st, ok := strings.Cut(fs[4], "/"); ok {
@@ -473,13 +501,15 @@ type allocStat struct {
 }
 
 type searchState struct {
-	h      *harness
-	p      *pool
-	stats  map[string]*allocStat
-	race   bool // the pool's workers are built with the race detector: concurrent calls only
-	leaks  []string
-	diffs  []string
-	dumped map[string]bool
+	h        *harness
+	p        *pool
+	stats    map[string]*allocStat
+	reads    map[string]float64 // max bytes read / (len+4096), by call
+	maxBlock map[string]int     // max reads of one block, by call
+	race     bool               // the pool's workers are built with the race detector: concurrent calls only
+	leaks    []string
+	diffs    []string
+	dumped   map[string]bool
 }
 
 func pow2ceil(v uint64) uint64 {
@@ -664,6 +694,33 @@ func (s *searchState) record(g genLayer, res layerRes) {
 				// them, after the call returned and its context was cancelled:
 				// one more for every layer served, for the life of the process.
 				fail("goroutine-leak", name, c)
+			}
+			if bound := uint64(readBoundA) + readBoundB*uint64(size); c.read > bound && !s.race && !isPseudo(name) {
+				// Read amplification: the call read the layer many times over
+				// (a database parsed again for every candidate file, a member
+				// re-read per entry ...).
+				c.msg = fmt.Sprintf("read %d bytes of a %d-byte layer, bound %d+%d*len; %s", c.read, size, uint64(readBoundA), readBoundB, c.msg)
+				fail("read-amplification", name, c)
+			}
+			if c.maxBlock > blockReadBound && !s.race && !isPseudo(name) && !strings.HasPrefix(name, "layer/") {
+				c.msg = fmt.Sprintf("the 512-byte block at offset %d of the layer was read %d times in one call (bound %d): something is opened again and again; %s", c.whichBlock*512, c.maxBlock, blockReadBound, c.msg)
+				fail("read-amplification", name, c)
+			}
+			if !s.race && c.maxBlock > s.maxBlock[name] {
+				if s.maxBlock == nil {
+					s.maxBlock = map[string]int{}
+				}
+				s.maxBlock[name] = c.maxBlock
+			}
+			if !s.race {
+				if st := s.stats[name]; st != nil || true {
+					if s.reads == nil {
+						s.reads = map[string]float64{}
+					}
+					if x := float64(c.read) / float64(size+4096); x > s.reads[name] {
+						s.reads[name] = x
+					}
+				}
 			}
 			if isPseudo(name) || s.race {
 				// The concurrent calls: allocation is the sum over all scanners
@@ -858,6 +915,21 @@ func (h *harness) searchJobs() []job {
 			jobs = append(jobs, job{func(r *hx.Rand) genLayer { return genFieldSweepLayer(r, k) }})
 		}
 	}
+	// 7. boundary layers: every size limit of the scanners, -3..+3, every run
+	for ki, k := range boundaryKinds {
+		for li := range k.limits {
+			ki, li := ki, li
+			jobs = append(jobs, job{func(r *hx.Rand) genLayer { return genBoundaryLayer(r, ki, li) }})
+		}
+	}
+	for w := 0; w < 2; w++ {
+		w := w
+		jobs = append(jobs, job{func(r *hx.Rand) genLayer { return genRpmBoundaryLayer(r, w) }})
+	}
+	// 8. an rpm database and many candidate files of one language scanner
+	for i, n := 0, h.cfg.N(8, 120); i < n; i++ {
+		jobs = append(jobs, job{func(r *hx.Rand) genLayer { return genCandidatesLayer(r) }})
+	}
 	return jobs
 }
 
@@ -926,6 +998,14 @@ func (h *harness) searchStream() {
 			allocBoundA>>23, floor(pow2ceil(uint64(st.maxExcess)+1), 4))
 	}
 	h.r.Notes["alloc_max"] = tab
+	rm := map[string]string{}
+	for n, x := range s.reads {
+		rm[n] = fmt.Sprintf("read/(len+4KiB)<=%d", pow2ceil(uint64(x)+1))
+	}
+	for n, x := range s.maxBlock {
+		rm[n] += fmt.Sprintf(" one-block-reads<=%d", pow2ceil(uint64(x)))
+	}
+	h.r.Notes["read_max"] = rm
 	if s.leaks == nil {
 		s.leaks = []string{}
 	}
